@@ -238,6 +238,16 @@ func c01(c *Ctx) {
 	pu := p.Func("rtp.(*Packet).Unmarshal")
 	c.wrapScope = map[string]bool{"rtp.(*Header).Unmarshal": true, "rtp.(*Packet).Unmarshal": true}
 	boundsRun(c, []*ssa.Function{hu, pu}, headerContracts(c, false))
+	// writer side: the extension length field (RFC 3550 5.3.1)
+	if mt := p.Func("rtp.(Header).MarshalTo"); mt != nil {
+		decided := 0
+		if hk := extLenHooks(c, mt, &decided); hk != nil {
+			boundsRun(c, []*ssa.Function{mt}, hk)
+			r.Infof("CTR.extlen: %d success path(s) with an extension block checked", decided)
+		}
+	} else {
+		missingAnchor(r, "rtp.(Header).MarshalTo")
+	}
 }
 
 // C03 — RTP decoding conforms to RFC 3550/8285 and re-encoding is stable.
